@@ -27,6 +27,32 @@ CHECKS = {
             "alive (weak references) is compared with the bound after every transition. cache_objects decoding is enumerated.",
             "state = canonical object graph of both stores (+ directory tree); the bare store is the reference model",
             "5/C12"),
+    "C08": ("seqmc", "model_checking",
+            "explicit-state BFS of store operation sequences against a dictionary model + exhaustive path-pair sweep",
+            "Part A: breadth-first search over 27 store operations (store/has/fetch of five keys with str, bytes, None and object values, "
+            "sync/fetch of a three-path window, reopen) on MemoryStore, LocalFileStore, the cache-wrapped local store and DBFSStore over a "
+            "fake dbutils, every answer compared with a dictionary model; state = model + physical state. Part B: every path of 1-3 "
+            "segments over {a, b, ab, 'a b', a.b, .a, e-acute, ., ..} committed alone (round trip, crash, escape from the data directory, "
+            "owned locations) and all pairs committed in both orders and at once and read back.",
+            "a key always maps to one value; segment-prefix pairs are C11's; DBFS is a fake",
+            "5/C08"),
+    "C17": ("seqmc", "model_checking",
+            "explicit-state BFS over store/fetch/register-codec/restart sequences with payload-tagging user codecs",
+            "Breadth-first search over {store v, fetch v} for windows of three values out of 19 (str incl. empty, newline, CRLF, non-ASCII, "
+            "1 MiB; bytes; bytearray; None; int; dict; object; DataFrame; user type), registration of four user codecs (two for one type, "
+            "one claiming str, one CodecProtocol) and restarts that re-register in reverse order, on the local store and on DBFS(fake). "
+            "User codecs tag their payload and log decodes, so reading with another codec than the one in the meta record is visible; "
+            "str/bytes blob files and the file under the data directory are compared byte for byte.",
+            "the codec reference in the meta record right after store_blob defines 'the codec that wrote it'",
+            "5/C17"),
+    "C19": ("seqmc", "model_checking",
+            "explicit-state BFS of keep/eval/edit/load sequences per commit type against a model of the data directory (fake dbutils)",
+            "For each documented commit-type spelling the real DBFSStore runs over a dictionary-backed fake of dbutils.fs; BFS over "
+            "{keep str, keep bytes, eval with two nested keeps, edit, load x4}; after every transition the files under the data directory "
+            "are compared with the model (full: byte-identical copy + redirect record; links_only: record only; none: nothing). Legacy "
+            "blobs are planted the way each legacy codec wrote them and must decode to the original value.",
+            "fake dbutils; documented commit types are those of the set_store docstring",
+            "5/C19"),
 }
 
 NOT_YET = {}
